@@ -146,7 +146,10 @@ Inductive op :=
 | HServe                                   (* the rebuilder serves everything queued (RebuildIndex force=false) *)
 | HSync                                    (* TsIndexer.SyncChunks with the journal's chunks *)
 | HDrop                                    (* the cindex of the partition is lost (restart without cindex files) *)
-| HRead (o1 o2 : option Z).                (* a range query read to the end *)
+| HRead (o1 o2 : option Z)                 (* a range query read to the end *)
+| HRestart                                 (* clean shutdown and start: the index is saved and loaded, the rebuilder's queue is lost *)
+| HDescribe.                               (* Service.GetParitionInfo: SyncChunks, then a (forced) rebuild request for every
+                                              chunk whose index cannot be counted *)
 
 Definition serve (v : variant) (st : pstate) : pstate :=
   mkp (p_chunks st)
@@ -172,6 +175,12 @@ Definition serve_seen (v : variant) (st : pstate) (seen : list (Z * Z)) : pstate
                  (p_queue st) (p_ci st))
       [].
 
+Definition describe (st : pstate) : pstate :=
+  let ci' := ci_sync (p_ci st) (p_chunks st) in
+  mkp (p_chunks st) ci'
+      (fold_left (fun q ck => match ci_read_data ci' (fst ck) with None => enqueue q (fst ck) | Some _ => q end)
+                 (p_chunks st) (p_queue st)).
+
 Definition step (v : variant) (st : pstate) (o : op) : pstate :=
   match o with
   | HBatch segs => run_segs v st iw_init segs
@@ -179,6 +188,8 @@ Definition step (v : variant) (st : pstate) (o : op) : pstate :=
   | HSync => mkp (p_chunks st) (ci_sync (p_ci st) (p_chunks st)) (p_queue st)
   | HDrop => mkp (p_chunks st) [] []
   | HRead o1 o2 => snd (range_read v st o1 o2)
+  | HRestart => mkp (p_chunks st) (ci_restart (p_ci st)) []
+  | HDescribe => describe st
   end.
 Definition run (v : variant) (h : list op) : pstate := fold_left (step v) h p_init.
 
